@@ -116,7 +116,7 @@ class Run(Engine):
 
     def rule(self, prop):
         base = ("histories over {write v1/v2, delete, remove .spok, toggle a task's failure, run a subset of tasks ± --force, "
-                "kill at a crash point} on 9 spokfile templates (1-3 tasks; literal, glob, task dependencies, a dependency-less "
+                "kill at a crash point, toggle a command's side effect (it overwrites a file when it runs)} on 10 spokfile templates (1-3 tasks; literal, glob, task dependencies, a dependency-less "
                 "task, shared files, a file matched twice, a directory among the glob matches, a missing literal); corpus "
                 "(D1 witnesses) + ALL histories of depth 4 ending in a run on two or three templates (depth 5 in thorough) + "
                 "kill-point enumeration (every VerifPoint before/after every cache write, torn writes, Runner panics) + seeded "
@@ -144,7 +144,7 @@ class Run(Engine):
 ENGINE = Run()
 
 RUN_MODELLED = [
-    "modelled, not verified: task commands that rewrite their own dependency files during a run; concurrent spok processes on one project",
+    "side effects of commands: a command may overwrite files (x events, in-process mode); every task is judged on the inputs it SAW when its turn came (reference snapshots after every Runner call), and for a task whose own command rewrites its own dependencies the inputs of its 'last success' are by convention those it saw before running; not modelled: files created or removed by commands during a run (glob expansions are taken once, before the first task), concurrent spok processes on one project",
     "modelled: write(2)/os.WriteFile atomicity as 'any prefix of the new contents may be what is on disk' (truncate, then write, as two micro-steps); directory creation and the .gitignore/CACHEDIR.TAG writes of cache.Init are not crash points",
     "SHA-256 / hash.Concurrent is a parameter `digest` of the model (never assumed injective: conclusions are '… or an explicit collision'); the oracle instantiates it with an injective code of the item list and the harness maps the real digests it computes with hash.New() to the same codes",
     "modelled: run order (dag.Sort) is observed and handed to the model as an oracle argument; glob expansion is compared against reference code of the harness through the digests found in .spok/cache.json",
@@ -156,7 +156,7 @@ RUN_JSON = [
     "byte level of the cache file (lean/Spok/Json, engine json): encoding/json's scanner, string encoder, unquote and the map[string]string decoding are transliterated by hand and compared with the real cache.Dump/cache.Load; UTF-8 re-encoding of a valid rune is taken to give back its bytes",
 ]
 RUN_ASSUME = [
-    "one spok process per project at a time; commands do not modify their own dependencies; the spokfile is not edited within a history",
+    "one spok process per project at a time; commands may overwrite existing files but do not create or remove dependency files during a run; the spokfile is not edited within a history",
     "a Runner error (as opposed to a non-zero exit status) is not part of the modelled universe",
 ]
 
